@@ -251,6 +251,8 @@ fn worker_loop(inner: &PoolInner, processor_id: ProcessorId, worker_index: u32) 
                 break;
             }
             IterationResult::WaitingForWork => {
+                #[cfg(folo_verif)]
+                crate::__verif::point("worker/before-listen");
                 listener!(state.wake_event => listener);
 
                 // Re-check after registering listener to avoid lost wakeups.
